@@ -64,6 +64,10 @@ GStep ==
          "get" \in Ops /\ Get(TRUE, n, ty) /\ H([op |-> "get", sp |-> sp, name |-> n, type |-> ty])
     \/ \E sp \in Spellings, n \in Names :
          "exists" \in Ops /\ Exists(TRUE, n) /\ H([op |-> "exists", sp |-> sp, name |-> n])
+    \/ \E sp \in Spellings, n \in Names :
+         "getnode" \in Ops /\ GetNode(TRUE, n) /\ H([op |-> "getnode", sp |-> sp, name |-> n])
+    \/ "names" \in Ops /\ IterNames /\ H([op |-> "names"])
+    \/ "changed" \in Ops /\ (\E b \in BOOLEAN : Changed(b)) /\ H([op |-> "changed"])
     \/ "outzone" \in Ops /\ DeleteName(FALSE, FALSE, "@") /\ H([op |-> "outzone"])
     \/ \E sp \in Spellings, n \in Names, ty \in Types \ {"SOA"}, ttl \in TTLs :
          "cbraise" \in Ops /\ CallbackRaises /\ H([op |-> "cbraise", sp |-> sp, name |-> n, type |-> ty, ttl |-> ttl, rds |-> {<<1>>}])
